@@ -66,7 +66,6 @@ theorem conversion_argument_is_the_type_substring (s a rest : Str) (parts : Part
   · simp [fail] at h
   · rename_i s1 hs1
     refine ⟨s1, ?_⟩
-    dsimp only at h
     split at h
     · simp [fail] at h
     · rename_i s2 subpath hr1
@@ -84,6 +83,7 @@ theorem conversion_argument_is_the_type_substring (s a rest : Str) (parts : Part
               obtain ⟨rfl, rfl, _⟩ := h
               -- s3 is a prefix of s2, which is a prefix of trimStart '/' s1
               have e1 : ∃ t1, trimStart '/' s1 = s2 ++ t1 := by
+                unfold splitSubpath at hr1
                 split at hr1
                 · rename_i s' sub hrs
                   split at hr1
@@ -95,6 +95,7 @@ theorem conversion_argument_is_the_type_substring (s a rest : Str) (parts : Part
                   obtain ⟨rfl, _⟩ := hr1
                   exact ⟨[], by simp⟩
               have e2 : ∃ t2, s2 = s3 ++ t2 := by
+                unfold splitQuals at hr2
                 split at hr2
                 · rename_i s' qs hrs
                   split at hr2
